@@ -11,6 +11,9 @@
 (* All of them are written like the code they describe (sampling stride etc.).    *)
 EXTENDS PackedSeq, TLC
 
+(* All eleven findings C09-KF1 .. C09-KF11 have been repaired in /repo (status "fixed" in               *)
+(* known_findings.json): KnownIds is empty, no deviation is ever consulted, and the guards below are    *)
+(* kept only as the record of what each finding looked like.  A new finding gets a NEW id and guard.    *)
 KnownIds == {}
 
 HasD(subj) == "d" \in DOMAIN subj
